@@ -45,9 +45,11 @@ Definition RpeekAll (r : resp) (key : bytes) : list bytes :=
   else if beq key strContentEncoding then opt1 (rce r)
   else if beq key strServer then opt1 (rserver r)
   else if beq key strConnection then (if hclose x then [strClose] else peekAllArgs (hh x) key)
-  else if beq key strContentLength then [hclb x]
-  else if beq key strSetCookie then [appendResponseCookieBytes [] (hcookies x)]
-  else if beq key strTrailer then [appendTrailerBytes [] (htrailer x) strCommaSpace]
+  else if beq key strContentLength then opt1 (hclb x)
+  else if beq key strSetCookie then
+    (match hcookies x with [] => [] | cs => [appendResponseCookieBytes [] cs] end)
+  else if beq key strTrailer then
+    (match htrailer x with [] => [] | tr => [appendTrailerBytes [] tr strCommaSpace] end)
   else peekAllArgs (hh x) key.
 (* Peek / PeekBytes and PeekAll normalise the key first *)
 Definition RPeek (r : resp) (key : bytes) : bytes := Rpeek r (getHeaderKeyBytes key (hdisableNorm (rh r))).
@@ -100,10 +102,12 @@ Definition QpeekAll (q : req) (key : bytes) : list bytes :=
   else if beq key strContentType then opt1 (QContentType q)
   else if beq key strUserAgent then opt1 (QUserAgent q)
   else if beq key strConnection then (if hclose x then [strClose] else peekAllArgs (hh x) key)
-  else if beq key strContentLength then [hclb x]
+  else if beq key strContentLength then opt1 (hclb x)
   else if beq key strCookie then
-    (if qcookiesCollected q then [appendRequestCookieBytes [] (hcookies x)] else peekAllArgs (hh x) key)
-  else if beq key strTrailer then [appendTrailerBytes [] (htrailer x) strCommaSpace]
+    (if negb (qcookiesCollected q) then peekAllArgs (hh x) key
+     else match hcookies x with [] => [] | cs => [appendRequestCookieBytes [] cs] end)
+  else if beq key strTrailer then
+    (match htrailer x with [] => [] | tr => [appendTrailerBytes [] tr strCommaSpace] end)
   else peekAllArgs (hh x) key.
 Definition QPeek (q : req) (key : bytes) : bytes := Qpeek q (getHeaderKeyBytes key (hdisableNorm (qh q))).
 Definition QPeekAll (q : req) (key : bytes) : list bytes := QpeekAll q (getHeaderKeyBytes key (hdisableNorm (qh q))).
